@@ -160,6 +160,11 @@ func mapRunesToClusterIndices3(dir di.Direction, runes Range, glyphs []Glyph, bu
 	var mapping []glyphIndex
 	if cap(buf) >= runes.Count {
 		mapping = buf[:runes.Count]
+		// the runes which are not covered by a glyph (a run may have no glyph at all)
+		// must not keep the indices of the previous run
+		for i := range mapping {
+			mapping[i] = 0
+		}
 	} else {
 		mapping = make([]glyphIndex, runes.Count)
 	}
